@@ -67,11 +67,13 @@ const (
 	OnSetVars    = "setvars"
 	OnInitDB     = "initdb"
 	OnPing       = "ping"
+	OnConnect    = "connect" // the slice's servers refuse new connections while the command runs (action "refuse")
 
 	ActErr         = "err"
 	ActCloseBefore = "close_before"
 	ActCloseAfter  = "close_after"
 	ActStall       = "stall"
+	ActRefuse      = "refuse"
 )
 
 // Fault is armed before its command is sent and fires at most once, on the
@@ -147,6 +149,7 @@ type Step struct {
 	OldPools    []PoolStat        // counters of pools of previous namespace generations (reload), after the command
 	Gen         int               // namespace generation (number of reloads so far) when the command ran
 	NewConns    []ConnKey         // backend connections accepted while the command ran (synchronous with the proxy's dial)
+	Dur         time.Duration     // wall time of the command including waits of the runner
 }
 
 // Trace is the result of running a case.
@@ -156,15 +159,16 @@ type Trace struct {
 	// all events of the whole run (including those after the last command), global order
 	AllEvents []fakemysql.Event
 	// Final observations (C19)
-	FinalPools    []PoolStat // all generations
-	FinalOpen     []OpenConn // backend connections still open at the end that are not health/kill connections
-	Quiesced      bool       // pools reached InUse==0 && Available==Capacity
-	StillChanging bool       // counters were still changing when the deadline passed (inconclusive)
-	FreshOK       bool       // a fresh session could run a statement on every slice
-	FreshErr      string
-	SetupErr      string
-	HardDrops     int // sessions closed with RST: the proxy-side close cannot be observed
-	Unobserved    int // sessions closed with FIN / COM_QUIT whose proxy-side close was not seen within the deadline
+	FinalPools                             []PoolStat // all generations
+	FinalOpen                              []OpenConn // backend connections still open at the end that are not health/kill connections
+	Quiesced                               bool       // pools reached InUse==0 && Available==Capacity
+	StillChanging                          bool       // counters were still changing when the deadline passed (inconclusive)
+	FreshOK                                bool       // a fresh session could run a statement on every slice
+	FreshErr                               string
+	SetupErr                               string
+	HardDrops                              int // sessions closed with RST: the proxy-side close cannot be observed
+	SetupDur, StepsDur, FinalDur, TotalDur time.Duration
+	Unobserved                             int // sessions closed with FIN / COM_QUIT whose proxy-side close was not seen within the deadline
 }
 
 // OpenConn is a backend connection still open at the end.
@@ -488,6 +492,8 @@ func RunLive(c Case, opt Options) (*Trace, *Live) {
 
 func runLive(c Case, opt Options, live *Live) *Trace {
 	tr := &Trace{}
+	t0 := time.Now()
+	defer func() { tr.TotalDur = time.Since(t0) }()
 	px, err := proxyfix.Shared()
 	if err != nil {
 		tr.SetupErr = "proxy: " + err.Error()
@@ -625,7 +631,9 @@ func runLive(c Case, opt Options, live *Live) *Trace {
 		return all
 	}
 
+	tr.SetupDur = time.Since(t0)
 	for idx, cmd := range c.Cmds {
+		stepStart := time.Now()
 		st := Step{Idx: idx, Cmd: cmd, Gen: len(gens) - 1}
 		if cmd.K == KReload {
 			m := marks()
@@ -659,6 +667,7 @@ func runLive(c Case, opt Options, live *Live) *Trace {
 			st.Tag = fmt.Sprintf("t%de", idx)
 		}
 		st.SQL = SQLFor(cmd, st.Tag, nslices)
+		var refusedBefore uint32
 		if cmd.F != nil {
 			fs := cmd.F.Slice % nslices
 			if fs < 0 {
@@ -671,6 +680,14 @@ func runLive(c Case, opt Options, live *Live) *Trace {
 			}
 			arm.mu.Unlock()
 			st.FaultArmed = true
+			if cmd.F.On == OnConnect {
+				for _, srv := range cl.All() {
+					if srv.Slice == tr.SliceNames[fs] {
+						refusedBefore += srv.Refused()
+						srv.RefuseConnections(true)
+					}
+				}
+			}
 		}
 		m := marks()
 		acc := accepted()
@@ -692,7 +709,7 @@ func runLive(c Case, opt Options, live *Live) *Trace {
 		case KQuit:
 			s.c.ResetSeq()
 			s.c.WritePacket([]byte{0x01})
-			st.ProxyClosed = waitEOF(s.c, 3*time.Second)
+			st.ProxyClosed = waitEOF(s.c, 2*time.Second)
 			if !st.ProxyClosed {
 				tr.Unobserved++
 			}
@@ -703,7 +720,7 @@ func runLive(c Case, opt Options, live *Live) *Trace {
 			if tc, ok := s.c.NetConn().(*net.TCPConn); ok {
 				tc.CloseWrite()
 			}
-			st.ProxyClosed = waitEOF(s.c, 3*time.Second)
+			st.ProxyClosed = waitEOF(s.c, 2*time.Second)
 			if !st.ProxyClosed {
 				tr.Unobserved++
 			}
@@ -736,7 +753,7 @@ func runLive(c Case, opt Options, live *Live) *Trace {
 					st.OK = true
 				}
 			}
-			st.ProxyClosed = waitEOF(s.c, 3*time.Second)
+			st.ProxyClosed = waitEOF(s.c, 2*time.Second)
 			if !st.ProxyClosed {
 				tr.Unobserved++
 			}
@@ -772,24 +789,45 @@ func runLive(c Case, opt Options, live *Live) *Trace {
 			firedAt := arm.firedAt
 			arm.f = nil
 			arm.mu.Unlock()
+			if cmd.F.On == OnConnect {
+				var refusedAfter uint32
+				fsl := cmd.F.Slice % nslices
+				if fsl < 0 {
+					fsl = -fsl
+				}
+				for _, srv := range cl.All() {
+					if srv.Slice == tr.SliceNames[fsl] {
+						srv.RefuseConnections(false)
+						refusedAfter += srv.Refused()
+					}
+				}
+				if refusedAfter > refusedBefore {
+					st.FaultFired = true
+					st.FaultConn = ConnKey{tr.SliceNames[fsl] + "/master", 0}
+				}
+			}
 			if st.FaultFired && cmd.F.Action == ActStall {
 				// Scheduling, not an oracle: when max_sql_execute_time expires the proxy answers the client but a
 				// goroutine of it keeps reading the stalled backend connection until the reply arrives. Using that
 				// connection again before then is a data race inside the proxy with nondeterministic outcome
 				// (observed: COMMIT / Session.Close hanging for ever). The next command is therefore sent only
 				// after the stalled reply has been delivered.
-				if d := time.Until(firedAt.Add(time.Duration(c.StallMs)*time.Millisecond + 150*time.Millisecond)); d > 0 {
+				if d := time.Until(firedAt.Add(time.Duration(c.StallMs)*time.Millisecond + 100*time.Millisecond)); d > 0 {
 					time.Sleep(d)
 				}
 			}
 		}
 		st.Events = since(m)
 		st.NewConns = newConns(acc)
+		st.Dur = time.Since(stepStart)
 		st.Pools = curPools()
 		st.OldPools = oldPools()
 		tr.Steps = append(tr.Steps, st)
 	}
 
+	tr.StepsDur = time.Since(t0) - tr.SetupDur
+	finalStart := time.Now()
+	defer func() { tr.FinalDur = time.Since(finalStart) }()
 	if opt.FinalLedger {
 		// every remaining client goes away; wait until the proxy has closed each session
 		for _, s := range sessions {
